@@ -68,21 +68,21 @@ PLAN = {
         rule='histories (pure data, <= 45 ops quick / 120 thorough) by 3 users over FX, a module-owned multi-chain pair and an externally-owned pair on 3 chains (eth, bsc, tron) with generated timeout / block-time parameters: send, cancel, increase-fee and bridge-call through Cosmos messages and through the precompile (crossChain, cancelSendToExternal, increaseBridgeFee, bridgeCall), request-batch with generated base/minimum fee, deposits (bech32 / erc20 target) and inbound bridge calls as oracle claims with deferred executeClaim, batch-executed events in and out of order, bridge-call results (success / failure), height-only events with jumps to timeout-1 / timeout / timeout+1 of open objects, fxcore height jumps, and a governance raw-store reset of the observed height. The harness plays the external contract (height < timeout, batch nonce increasing per token) and only emits admissible events. ' + "Oracle: ledger per token group after every step: held by tracked accounts (all representations) + pool/batches/outgoing calls + observed-but-unexecuted inbound claims = initial + observed deposits - withdrawals observed as executed; every tracked account's holdings change by exactly what the operation states; for the module-owned multi-chain token what is queued towards plus executed on one external chain never exceeds what came in through it; and a final probe on a branch of the end state (genesis FX escrow paid out beforehand, so the escrow holds only what the history put there): every queued transfer is cancelled by its owner with amount+fee refunded, every holder sends all they hold (bounded per chain by what that chain's contract holds for the multi-chain token) and everything that left a home-chain token's chain comes back as one deposit - none may be refused. Generator: most operations focus on one (chain, token), composites send..batch and far-batch/reset/near-batch/boundary-jump, large sends of a quarter to all of a balance. non-trivial = history with a deposit, a withdrawal door and a refund/cancel/timeout over >= 2 token kinds",
         assumptions=["IBC vouchers are left to C19", "tokens originating on fxcore are only deposited back up to the amount currently out on that chain (the external contract cannot release more)"],
         quick=[dict(test="TestC04", cases=1200, shards=16, timeout=900)],
-        thorough=[dict(test="TestC04", cases=16000, shards=16, timeout=3400, shrink=120)],
+        thorough=[dict(test="TestC04", cases=8000, shards=16, timeout=3400, shrink=120)],
     ),
     "C05": dict(
         level="exploration",
         rule='histories (pure data, <= 45 ops quick / 120 thorough) by 3 users over FX, a module-owned multi-chain pair and an externally-owned pair on 3 chains (eth, bsc, tron) with generated timeout / block-time parameters: send, cancel, increase-fee and bridge-call through Cosmos messages and through the precompile (crossChain, cancelSendToExternal, increaseBridgeFee, bridgeCall), request-batch with generated base/minimum fee, deposits (bech32 / erc20 target) and inbound bridge calls as oracle claims with deferred executeClaim, batch-executed events in and out of order, bridge-call results (success / failure), height-only events with jumps to timeout-1 / timeout / timeout+1 of open objects, fxcore height jumps, and a governance raw-store reset of the observed height. The harness plays the external contract (height < timeout, batch nonce increasing per token) and only emits admissible events. ' + "Oracle: reference model of pool / batches / calls compared with the decoded stores after every step (each id in exactly one place, fields byte-equal to what the creator supplied, ids strictly increasing), settlement amounts per account, cancel only by the creator, batch cancel returns transfers unchanged, a call whose execution was observed is never refunded. non-trivial = history with a batch and (cancel after batching, out-of-order execution, fee increase or batch timeout)",
         assumptions=["releases are observed (not predicted) and then validated, so a different but property-conforming release order would not alarm"],
         quick=[dict(test="TestC05", cases=1200, shards=16, timeout=900)],
-        thorough=[dict(test="TestC05", cases=24000, shards=16, timeout=3400, shrink=120)],
+        thorough=[dict(test="TestC05", cases=12000, shards=16, timeout=3400, shrink=120)],
     ),
     "C06": dict(
         level="exploration",
         rule='histories (pure data, <= 45 ops quick / 120 thorough) by 3 users over FX, a module-owned multi-chain pair and an externally-owned pair on 3 chains (eth, bsc, tron) with generated timeout / block-time parameters: send, cancel, increase-fee and bridge-call through Cosmos messages and through the precompile (crossChain, cancelSendToExternal, increaseBridgeFee, bridgeCall), request-batch with generated base/minimum fee, deposits (bech32 / erc20 target) and inbound bridge calls as oracle claims with deferred executeClaim, batch-executed events in and out of order, bridge-call results (success / failure), height-only events with jumps to timeout-1 / timeout / timeout+1 of open objects, fxcore height jumps, and a governance raw-store reset of the observed height. The harness plays the external contract (height < timeout, batch nonce increasing per token) and only emits admissible events. ' + "Oracle: a batch / call may disappear for timeout only in a step that observed an event and only if the last observed external height >= its timeout; nothing can be batched / called out while no external height is observed; an admissible execution event is never rejected; an object whose execution the external chain reported is never refunded. Generator as for C04, including the composite that builds an older batch with a later timeout than a newer batch of the same token and then jumps the observed height around the nearer timeout. non-trivial = a timeout release and an execution (or a boundary-height jump, or an older batch with a later timeout) in one history",
         assumptions=["the external contract is modelled by its three relevant require()s"],
         quick=[dict(test="TestC06", cases=2400, shards=16, timeout=900)],
-        thorough=[dict(test="TestC06", cases=48000, shards=16, timeout=3400, shrink=120)],
+        thorough=[dict(test="TestC06", cases=24000, shards=16, timeout=3400, shrink=120)],
     ),
     "C11": dict(
         level="exploration",
@@ -92,7 +92,7 @@ PLAN = {
               "non-trivial = a transfer after rewards accrued, or to oneself, or after a slash"),
         assumptions=["withdraw addresses are the delegators' own addresses", "the SDK's max-unbonding-entries limit is respected in the final undelegation"],
         quick=[dict(test="TestC11", cases=6400, shards=16, timeout=900)],
-        thorough=[dict(test="TestC11", cases=96000, shards=16, timeout=3400, shrink=120)],
+        thorough=[dict(test="TestC11", cases=48000, shards=16, timeout=3400, shrink=120)],
     ),
     "C07": dict(
         level="exploration",
@@ -102,7 +102,7 @@ PLAN = {
               "non-trivial = a block was processed while an online oracle had left an oracle set / batch / outgoing bridge call older than the signed window unconfirmed, or a proposal ended"),
         assumptions=["oracle claims are injected through the MsgClaim handler with unpacked claims (wire delivery of MsgClaim is impossible on this snapshot)", "governance raw store updates are restricted to value-preserving or failing ones (writing garbage into a module store is outside 'valid')"],
         quick=[dict(test="TestC07", cases=1920, shards=16, timeout=900)],
-        thorough=[dict(test="TestC07", cases=19200, shards=16, timeout=3400, shrink=120)],
+        thorough=[dict(test="TestC07", cases=9600, shards=16, timeout=3400, shrink=120)],
     ),
     "C10": dict(
         level="exploration",
@@ -123,7 +123,7 @@ PLAN = {
               "non-trivial = a precompile call succeeded inside a frame the EVM later dropped, or a gas limit made the transaction fail after execution had started; evaluations counts trees, gas-points counts executions"),
         assumptions=["the interpreter contract's outcome bits are taken from the EVM's own success flags"],
         quick=[dict(test="TestC09", cases=4800, shards=16, timeout=900)],
-        thorough=[dict(test="TestC09", cases=160000, shards=16, timeout=3400, shrink=120)],
+        thorough=[dict(test="TestC09", cases=96000, shards=16, timeout=3400, shrink=120)],
     ),
     "C08": dict(
         level="exploration",
@@ -133,7 +133,7 @@ PLAN = {
               "pair / by-denom / by-erc20 / alias indexes and bank metadata describe one set of pairs; a conversion moves exactly the amount from sender to receiver and nothing else. non-trivial: (A) conversions over >= 2 pair kinds; (B) the program writes the token before a precompile call converts it in the same successful transaction"),
         assumptions=["the ERC-20 holder set is closed by construction (the generator only targets known addresses)"],
         quick=[dict(test="TestC08A", cases=800, shards=16, timeout=900), dict(test="TestC08B", cases=1600, shards=16, timeout=900)],
-        thorough=[dict(test="TestC08A", cases=24000, shards=16, timeout=3400, shrink=120), dict(test="TestC08B", cases=48000, shards=16, timeout=3400, shrink=120)],
+        thorough=[dict(test="TestC08A", cases=8000, shards=16, timeout=3400, shrink=120), dict(test="TestC08B", cases=16000, shards=16, timeout=3400, shrink=120)],
     ),
     "C13": dict(
         level="exploration",
@@ -176,7 +176,7 @@ PLAN = {
               "non-trivial = >= 3 blocks and a batch, bridge call, validator-operator vote, migration or ended proposal in the history"),
         assumptions=["a dependence that shows with probability p per replica is detected with probability 1-(1-p)^k for k extra replicas only", "operations that cannot travel in transactions on this snapshot (oracle claims) are applied to the block being built through the real handlers, identically on every replica"],
         quick=[dict(test="TestC17", cases=480, shards=16, timeout=900)],
-        thorough=[dict(test="TestC17", cases=8000, shards=16, timeout=3400, shrink=120)],
+        thorough=[dict(test="TestC17", cases=3200, shards=16, timeout=3400, shrink=120)],
     ),
     "C18": dict(
         level="exploration",
@@ -199,6 +199,6 @@ PLAN = {
               "a send debits exactly the amount in the form sent, a refused send changes nothing and leaves no tracking record; error acknowledgement / timeout refunds exactly the amount in the form sent, once (replays change nothing), a success acknowledgement refunds nothing; no tracking record remains after any resolution; each channel's escrow holds exactly sends - refunds - returns. non-trivial = transfers resolved out of sending order, or an inbound packet with a memo call"),
         assumptions=["light-client proofs are not exercised: delivery follows ibc-go v8.5.1's message server rules as emulated in harness/sim/ibc.go", "on this snapshot every ERC-20-started IBC transfer is refused by the precompile (counted in the evidence labels), so refunds in ERC-20 form are reachable only if that changes"],
         quick=[dict(test="TestC19", cases=3200, shards=16, timeout=900)],
-        thorough=[dict(test="TestC19", cases=64000, shards=16, timeout=3400, shrink=120)],
+        thorough=[dict(test="TestC19", cases=32000, shards=16, timeout=3400, shrink=120)],
     ),
 }
